@@ -8,6 +8,7 @@ open OdfModel OdfModel.GrammarExceptions OdfModel.Grammar OdfModel.GrammarApi Od
     info                      ok nElems nSchemaElems nAttrs nSchemaAttrs nKws nDefs nDecls
     schema <e>                ok <isElem> <mayText> <mayElems> <mayAttrs> <mustAttrs>      (Lean semantics of the .rng)
     ename|aname|kname <i>     ok <name>
+    add <chk> <p> <c>         ok | err IllegalChild          (any ids, also ids outside the tables = foreign elements)
     addrow <chk> <p>          ok <one char per child id: . accepted, C IllegalChild>
     text|cdata <chk> <e>      ok | err IllegalText
     setrow <chk> <e>          ok <per keyword of the keyword universe (kname order): attribute id | A (AttributeError) | V (ValueError)>
@@ -48,6 +49,9 @@ def handle (line : String) : String :=
   | ["ename", i] => match i.toNat? with | some i => "ok " ++ GrammarNamesCodec.decode (elemName i) | none => "err bad-arg"
   | ["aname", i] => match i.toNat? with | some i => "ok " ++ GrammarNamesCodec.decode (attrName i) | none => "err bad-arg"
   | ["kname", i] => match i.toNat? with | some i => "ok " ++ GrammarNamesCodec.decode (kwName i) | none => "err bad-arg"
+  | ["add", c, p, ch] => match c.toNat?, p.toNat?, ch.toNat? with
+      | some c, some p, some ch => (match addElement T (c != 0) p ch with | .ok _ => "ok" | .error x => "err " ++ errName x)
+      | _, _, _ => "err bad-arg"
   | ["addrow", c, p] => match c.toNat?, p.toNat? with
       | some c, some p => "ok " ++ String.ofList ((List.range GrammarTables.nElems).map fun ch =>
           match addElement T (c != 0) p ch with | .ok _ => '.' | .error _ => 'C')
